@@ -3,8 +3,10 @@ package c03
 import (
 	"bytes"
 	"encoding/binary"
+	"encoding/hex"
 	"fmt"
 	"net"
+	"sort"
 	"sync"
 	"testing"
 	"testing/synctest"
@@ -30,6 +32,12 @@ type clientCfg struct {
 	CTag     uint16 `json:"ctag,omitempty"`
 	Cid      hexb   `json:"cid,omitempty"`
 	RemoteID hexb   `json:"remote_id,omitempty"`
+	// Rel / Of: this entry is another appearance of client Of (documentation for the reader and the class
+	// labels; the executor only looks at MAC / Access / tags / Cid): "cpe-swap" = a replacement device on the
+	// same circuit (new MAC, same circuit-id), "circuit-move" = the same device on another circuit (same MAC,
+	// new circuit-id), "reshape" = the same device reaching the server in another way (same MAC, other access).
+	Rel string `json:"rel,omitempty"`
+	Of  int    `json:"of,omitempty"`
 }
 
 type caseCfg struct {
@@ -190,11 +198,20 @@ type run struct {
 	conn   *capConn
 	sites  map[string][]int
 
-	offered map[int]net.IP // address of the last userspace OFFER not yet turned into a lease
-	prevIP  map[int]net.IP // address of the client's last lease
-	gone    map[int]string // why the client has no lease any more (release | decline | expiry-cleanup)
+	// what the devices remember and why userspace dropped what it held, keyed by IDENTITY (MAC string,
+	// hex circuit-id), not by entry of Cfg.Clients: several entries may share a MAC or a circuit-id
+	offered map[string]net.IP // MAC -> address of the last userspace OFFER not yet turned into a lease
+	prevIP  map[string]net.IP // MAC -> address of the device's last lease
+	gone    map[string]string // MAC -> why userspace holds no lease for it any more
+	goneCid map[string]string // hex circuit-id -> why no userspace lease carries it any more
+	vlanIn  map[[2]uint16]bool // vlan_subscriber_pools keys the harness itself has injected and not removed
+	dump    map[string][]kentry
+	flagged map[string]bool    // cache entries already reported by the map-level invariant
+	lastAcc map[string]string  // MAC -> access shape of the message userspace last acknowledged for it
+	events  map[string]bool    // identity events that have happened so far in this history
 	xid     uint32
-	dirty   bool
+	dirty   bool // the runner's copy of the maps is out of date
+	fresh   bool // x.dump is what the kernel maps hold now
 
 	viol    []violation
 	cls     map[string]bool
@@ -202,6 +219,7 @@ type run struct {
 	nt      bool
 	probes  int
 	tx      int
+	skipped int
 	harness string // harness-side failure (inconclusive)
 }
 
@@ -214,7 +232,8 @@ func (x *run) fail(sig, f string, a ...any) {
 
 func newRun(rc *bpfnative.Client, tc *tcase) (*run, error) {
 	x := &run{tc: tc, g: newGeom(tc.Cfg), rc: rc, conn: &capConn{}, cls: map[string]bool{},
-		offered: map[int]net.IP{}, prevIP: map[int]net.IP{}, gone: map[int]string{}, dirty: true, sites: map[string][]int{}}
+		offered: map[string]net.IP{}, prevIP: map[string]net.IP{}, gone: map[string]string{}, goneCid: map[string]string{},
+		vlanIn: map[[2]uint16]bool{}, flagged: map[string]bool{}, lastAcc: map[string]string{}, events: map[string]bool{}, dirty: true, sites: map[string][]int{}}
 	for i, s := range rc.Sites() {
 		x.sites[s.Map] = append(x.sites[s.Map], i)
 	}
@@ -263,14 +282,128 @@ func (x *run) client(i int) (int, *clientCfg) {
 	return i, &x.tc.Cfg.Clients[i]
 }
 
+// ---------------------------------------------------------------------------
+// userspace's lease table as it is (copies made by the verif hook), looked up by identity
+// ---------------------------------------------------------------------------
+
+type leaseTab []dhcp.Lease
+
+func (x *run) table() leaseTab {
+	vl := x.srv.VerifLeases() // sorted by MAC string
+	t := make(leaseTab, 0, len(vl))
+	for _, l := range vl {
+		t = append(t, l.Lease)
+	}
+	return t
+}
+
+func (t leaseTab) byMAC(mac string) *dhcp.Lease {
+	for i := range t {
+		if t[i].MAC.String() == mac {
+			return &t[i]
+		}
+	}
+	return nil
+}
+
+// byCid: the lease that carries this circuit-id (an unexpired one first, should there be several).
+func (t leaseTab) byCid(cid []byte) *dhcp.Lease {
+	var hit *dhcp.Lease
+	if len(cid) == 0 {
+		return nil
+	}
+	now := time.Now()
+	for i := range t {
+		if bytes.Equal(t[i].CircuitID, cid) {
+			if now.Before(t[i].ExpiresAt) {
+				return &t[i]
+			}
+			if hit == nil {
+				hit = &t[i]
+			}
+		}
+	}
+	return hit
+}
+
+func (t leaseTab) cidHeldByOther(cid []byte, mac string) bool {
+	for i := range t {
+		if len(cid) > 0 && bytes.Equal(t[i].CircuitID, cid) && t[i].MAC.String() != mac {
+			return true
+		}
+	}
+	return false
+}
+
 func (x *run) lease(c int) *dhcp.Lease {
 	_, cl := x.client(c)
-	key := net.HardwareAddr(cl.MAC).String()
-	for _, l := range x.srv.VerifLeases() {
-		if l.Key == key {
-			l := l.Lease
-			return &l
+	return x.table().byMAC(net.HardwareAddr(cl.MAC).String())
+}
+
+// stateOf: userspace's view of one identity (l = the lease it currently maps to, gone = why it maps to none).
+func stateOf(l *dhcp.Lease, gone string, now time.Time) string {
+	switch {
+	case l == nil && gone != "":
+		return gone
+	case l == nil:
+		return "never-leased"
+	case now.After(l.ExpiresAt):
+		return "expired-uncleaned"
+	case !now.Before(l.ExpiresAt):
+		return "at-expiry-instant" // the two sides may legitimately differ for this one second
+	}
+	return "live"
+}
+
+// ---------------------------------------------------------------------------
+// kernel maps: raw dump, copy into the runner, and the map-level invariant
+// ---------------------------------------------------------------------------
+
+type kentry struct{ k, v []byte }
+
+func dumpKernelMap(m *cebpf.Map) ([]kentry, error) {
+	var out []kentry
+	var cur []byte
+	limit := int(m.MaxEntries()) + 1
+	for i := 0; i <= limit; i++ {
+		next, err := m.NextKeyBytes(cur)
+		if err != nil {
+			return nil, err
 		}
+		if next == nil {
+			break
+		}
+		cur = next
+		val, err := m.LookupBytes(cur)
+		if err != nil {
+			return nil, err
+		}
+		if val == nil {
+			continue
+		}
+		out = append(out, kentry{k: append([]byte(nil), cur...), v: val})
+	}
+	sort.Slice(out, func(i, j int) bool { return bytes.Compare(out[i].k, out[j].k) < 0 })
+	return out, nil
+}
+
+// staticMaps are written once by the set-up (AddPool, SetServerConfig) and never by a DHCP message.
+var staticMaps = map[string]bool{"ip_pools": true, "server_config": true}
+
+// dumpMaps reads the kernel maps the control plane writes (raw bytes, sorted by key).
+func (x *run) dumpMaps() error {
+	if x.dump == nil {
+		x.dump = map[string][]kentry{}
+	}
+	for _, n := range cacheMaps {
+		if _, have := x.dump[n]; have && staticMaps[n] {
+			continue
+		}
+		d, err := dumpKernelMap(x.km[n])
+		if err != nil {
+			return fmt.Errorf("iterate kernel map %s: %w", n, err)
+		}
+		x.dump[n] = d
 	}
 	return nil
 }
@@ -280,9 +413,20 @@ func (x *run) syncMaps() error {
 	if !x.dirty {
 		return nil
 	}
-	for _, n := range cacheMaps {
-		if _, err := x.rc.CopyKernelMap(x.km[n], n); err != nil {
+	if !x.fresh {
+		if err := x.dumpMaps(); err != nil {
 			return err
+		}
+		x.fresh = true
+	}
+	for _, n := range cacheMaps {
+		if err := x.rc.ClearMaps(n); err != nil {
+			return err
+		}
+		for _, e := range x.dump[n] {
+			if err := x.rc.LoadMap(n, e.k, e.v); err != nil {
+				return err
+			}
 		}
 	}
 	if err := x.rc.ClearMaps("stats_map"); err != nil {
@@ -292,22 +436,148 @@ func (x *run) syncMaps() error {
 	return nil
 }
 
+func macU64(mac net.HardwareAddr) (v uint64) {
+	for _, b := range mac {
+		v = v<<8 | uint64(b)
+	}
+	return
+}
+
+func fnv1a64(b []byte) uint64 {
+	h := uint64(0xcbf29ce484222325)
+	for _, c := range b {
+		h ^= uint64(c)
+		h *= 0x100000001b3
+	}
+	return h
+}
+
+// checkCache is the map-level invariant, evaluated on the kernel maps after every slow-path step: every
+// entry of subscriber_pools / circuit_id_subscribers / circuit_id_map belongs to a lease that is in
+// userspace's table NOW (same MAC resp. circuit-id; an expired lease the cleanup tick has not removed yet is
+// still in the table, that residue is KF-C03-9/10/11's subject, not this one's) and names that lease's
+// address, pool and expiry; vlan_subscriber_pools holds nothing but what the harness itself injected.
+// event = what the step that has just run did; an entry is reported once, at the step that left it behind.
+func (x *run) checkCache(tab leaseTab, event string) {
+	if err := x.dumpMaps(); err != nil {
+		x.harness = err.Error()
+		return
+	}
+	x.fresh = true
+	entry := func(m, ident string, v []byte, l *dhcp.Lease) {
+		id := m + "/" + ident
+		if x.flagged[id] {
+			return
+		}
+		if l == nil {
+			x.flagged[id] = true
+			x.fail("C03/cache-orphan/"+m+"/"+event, "after this step %s[%s] = %x is still there but userspace holds no lease for it (leases: %s)", m, ident, v, tab)
+			return
+		}
+		if len(v) < 21 {
+			x.harness = fmt.Sprintf("%s value of %d bytes", m, len(v))
+			return
+		}
+		pool, ip, exp := binary.LittleEndian.Uint32(v[0:]), binary.LittleEndian.Uint32(v[4:]), binary.LittleEndian.Uint64(v[13:])
+		switch {
+		case ip != ipu32(l.IP):
+			x.flagged[id] = true
+			x.fail("C03/cache-mismatch/"+m+"/allocated_ip/"+event, "%s[%s] names %s, userspace's lease for it is %s (%s)", m, ident, u32ip(ip), l.IP, l.MAC)
+		case pool != l.PoolID:
+			x.flagged[id] = true
+			x.fail("C03/cache-mismatch/"+m+"/pool_id/"+event, "%s[%s] names pool %d, userspace's lease %d", m, ident, pool, l.PoolID)
+		case exp != uint64(l.ExpiresAt.Unix()):
+			x.flagged[id] = true
+			x.fail("C03/cache-mismatch/"+m+"/lease_expiry/"+event, "%s[%s] expires at %d, userspace's lease at %d", m, ident, exp, l.ExpiresAt.Unix())
+		}
+	}
+	for _, e := range x.dump["subscriber_pools"] {
+		key := binary.LittleEndian.Uint64(e.k)
+		var l *dhcp.Lease
+		for i := range tab {
+			if macU64(tab[i].MAC) == key {
+				l = &tab[i]
+			}
+		}
+		entry("subscriber_pools", fmt.Sprintf("%012x", key), e.v, l)
+	}
+	for _, e := range x.dump["circuit_id_subscribers"] {
+		var l *dhcp.Lease
+		for i := range tab {
+			var k [32]byte
+			copy(k[:], tab[i].CircuitID)
+			if n := len(tab[i].CircuitID); n > 0 && n <= 32 && bytes.Equal(k[:], e.k) {
+				l = &tab[i]
+			}
+		}
+		entry("circuit_id_subscribers", fmt.Sprintf("%x", bytes.TrimRight(e.k, "\x00")), e.v, l)
+	}
+	for _, e := range x.dump["circuit_id_map"] {
+		key, val := binary.LittleEndian.Uint64(e.k), binary.LittleEndian.Uint64(e.v)
+		id := fmt.Sprintf("circuit_id_map/%016x", key)
+		if x.flagged[id] {
+			continue
+		}
+		var l *dhcp.Lease
+		for i := range tab {
+			if len(tab[i].CircuitID) > 0 && fnv1a64(tab[i].CircuitID) == key {
+				l = &tab[i]
+			}
+		}
+		switch {
+		case l == nil:
+			x.flagged[id] = true
+			x.fail("C03/cache-orphan/circuit_id_map/"+event, "after this step circuit_id_map[%016x] = %012x is still there but no userspace lease carries a circuit-id with that hash (leases: %s)", key, val, tab)
+		case val != macU64(l.MAC):
+			x.flagged[id] = true
+			x.fail("C03/cache-mismatch/circuit_id_map/mac/"+event, "circuit_id_map[hash of %x] = %012x, userspace's lease on that circuit belongs to %s", l.CircuitID, val, l.MAC)
+		}
+	}
+	for _, e := range x.dump["vlan_subscriber_pools"] {
+		k := [2]uint16{binary.LittleEndian.Uint16(e.k), binary.LittleEndian.Uint16(e.k[2:])}
+		id := fmt.Sprintf("vlan_subscriber_pools/%d.%d", k[0], k[1])
+		if !x.vlanIn[k] && !x.flagged[id] {
+			x.flagged[id] = true
+			x.fail("C03/cache-orphan/vlan_subscriber_pools/"+event, "vlan_subscriber_pools[%d.%d] = %x was not written by the harness and no lease userspace creates carries VLAN tags", k[0], k[1], e.v)
+		}
+	}
+}
+
+func (t leaseTab) String() string {
+	s := "["
+	for i, l := range t {
+		if i > 0 {
+			s += " "
+		}
+		s += fmt.Sprintf("%s=%s", l.MAC, l.IP)
+		if len(l.CircuitID) > 0 {
+			s += fmt.Sprintf("@%x", l.CircuitID)
+		}
+	}
+	return s + "]"
+}
+
 // syncVLAN keeps the entries of vlan_subscriber_pools that the harness owns in step with the MAC
 // entries the server writes (the server never fills Lease.STag/CTag, so nothing else writes that map):
 // present with the same assignment while userspace holds a lease for the client, absent otherwise.
 func (x *run) syncVLAN() {
+	tab := x.table()
 	for i := range x.tc.Cfg.Clients {
 		cl := &x.tc.Cfg.Clients[i]
 		if cl.Access != "vlan" && cl.Access != "qinq" {
 			continue
 		}
-		if x.lease(i) != nil {
+		k := [2]uint16{cl.STag, cl.CTag}
+		if tab.byMAC(net.HardwareAddr(cl.MAC).String()) != nil {
 			if asg, err := x.loader.GetSubscriber(ebpf.MACToUint64(net.HardwareAddr(cl.MAC))); err == nil {
-				_ = x.loader.AddVLANSubscriber(cl.STag, cl.CTag, asg)
+				if x.loader.AddVLANSubscriber(cl.STag, cl.CTag, asg) == nil {
+					x.vlanIn[k] = true
+				}
 				continue
 			}
 		}
 		_ = x.loader.RemoveVLANSubscriber(cl.STag, cl.CTag)
+		delete(x.vlanIn, k)
 	}
 }
 
@@ -365,20 +635,36 @@ func areaClass(n int) string {
 
 func (x *run) message(o op) {
 	c, cl := x.client(o.C)
-	lease := x.lease(c)
+	mac := net.HardwareAddr(cl.MAC)
+	macS := mac.String()
+	before := x.table()
+	lease := before.byMAC(macS) // the lease userspace holds for this device
+	relayed := cl.Access == "relay" || cl.Access == "relay82"
+	hasCid := cl.Access == "relay82" || cl.Access == "l2opt82"
+	var cidLease *dhcp.Lease // the lease userspace holds on this circuit (whoever's it is)
+	if hasCid {
+		cidLease = before.byCid(cl.Cid)
+		// Out of scope (level_note): a device using a circuit-id that is, at this moment, on the lease of
+		// ANOTHER device.  The one exception is what pkg/dhcp handles as a replacement CPE: a relayed request
+		// from a device that holds no lease itself.
+		if before.cidHeldByOther(cl.Cid, macS) && (!relayed || lease != nil) {
+			x.skipped++
+			x.cls["skipped:circuit-id-of-another-lease"] = true
+			x.logf("%s c%d(%s): skipped, circuit-id %x is on another device's lease %s", o.Kind, c, cl.Access, []byte(cl.Cid), before)
+			return
+		}
+	}
 	now := time.Now()
 	kind := o.Kind
 	deliver := true
-	mac := net.HardwareAddr(cl.MAC)
 	x.xid++
 	m := bootpMsg{Xid: 0xc0300000 + x.xid, Secs: uint16(x.xid % 5), Bcast: o.Bcast, Layout: o.Layout, P82: o.P82, Area: o.Area,
 		NoEnd: o.NoEnd, ExtraO: o.Extra, Fill: o.Fill, Hostname: o.Hostname}
 	copy(m.Chaddr[:], mac)
-	relayed := cl.Access == "relay" || cl.Access == "relay82"
 	if relayed {
 		m.Giaddr = ip4(x.g.relayIP)
 	}
-	if cl.Access == "relay82" || cl.Access == "l2opt82" {
+	if hasCid {
 		m.Cid = cl.Cid
 		m.RemoteID = cl.RemoteID
 	}
@@ -403,18 +689,24 @@ func (x *run) message(o op) {
 				addr = own
 				reqShape = "request-own-address"
 			}
-		case x.offered[c] != nil:
-			addr = x.offered[c]
+		case x.offered[macS] != nil:
+			addr = x.offered[macS]
 			reqShape = "request-offered-address"
 			if shape == "renewing" {
 				shape = "selecting"
 			}
-		case x.prevIP[c] != nil:
-			// the client has lost its lease in userspace and has not been offered anything since: its
+		case x.prevIP[macS] != nil:
+			// the device has lost its lease in userspace and has not been offered anything since: its
 			// REQUEST is run through the fast path only (what userspace does with an unsolicited REQUEST is C02's subject)
-			addr = x.prevIP[c]
+			addr = x.prevIP[macS]
 			reqShape = "request-former-address"
 			deliver = false
+			if relayed && cidLease != nil && now.Before(cidLease.ExpiresAt) && cidLease.IP.Equal(addr) {
+				// ... unless it is a device that was replaced on its circuit and is plugged in again while the
+				// circuit's lease (same address) is alive: pkg/dhcp re-homes that lease (replacement CPE)
+				reqShape = "request-circuit-address"
+				deliver = true
+			}
 		default:
 			kind = "discover"
 		}
@@ -441,39 +733,40 @@ func (x *run) message(o op) {
 		}
 	case "release":
 		m.Type = dhcpRelease
-		if own != nil {
+		switch {
+		case own != nil:
 			m.Ciaddr = ip4(own)
-		} else if x.prevIP[c] != nil {
-			m.Ciaddr = ip4(x.prevIP[c])
+		case x.offered[macS] != nil:
+			m.Ciaddr = ip4(x.offered[macS]) // gives up an address it was only offered
+		case x.prevIP[macS] != nil:
+			m.Ciaddr = ip4(x.prevIP[macS])
 		}
 		m.ServerID = x.g.serverIP.To4()
 	}
 	if kind == "discover" {
 		m.Type = dhcpDiscover
-		if o.Addr == "own" && x.prevIP[c] != nil {
-			m.ReqIP = x.prevIP[c].To4() // clients ask for their previous address
+		if o.Addr == "own" && x.prevIP[macS] != nil {
+			m.ReqIP = x.prevIP[macS].To4() // clients ask for their previous address
 		}
 	}
 	payload, cidPos, area := m.payload()
 
-	// userspace's view of this client at this moment
-	state := "live"
-	switch {
-	case lease == nil && x.gone[c] != "":
-		state = x.gone[c]
-	case lease == nil:
-		state = "never-leased"
-	case now.After(lease.ExpiresAt):
-		state = "expired-uncleaned"
-	case !now.Before(lease.ExpiresAt):
-		state = "at-expiry-instant" // the two sides may legitimately differ for this one second
+	// userspace's view, at this moment, of each identity this request can be looked up by
+	state := stateOf(lease, x.gone[macS], now)
+	cidState := ""
+	if hasCid {
+		cidState = stateOf(cidLease, x.goneCid[hex.EncodeToString(cl.Cid)], now)
+		x.cls["cid-state:"+cidState] = true
 	}
-	if lease != nil || x.gone[c] != "" {
+	if lease != nil || cidLease != nil || x.gone[macS] != "" || (hasCid && x.goneCid[hex.EncodeToString(cl.Cid)] != "") {
 		x.nt = true
 	}
 	x.cls["msg:"+kind] = true
 	x.cls["state:"+state] = true
 	x.cls["access:"+cl.Access] = true
+	if cl.Rel != "" {
+		x.cls["persona:"+cl.Rel] = true
+	}
 	x.cls["layout:"+layoutNames[m.Layout]] = true
 	x.cls[areaClass(area)] = true
 	if m.Cid != nil {
@@ -486,8 +779,11 @@ func (x *run) message(o op) {
 			x.cls["opt82:elsewhere"] = true
 		}
 	}
-	x.logf("%s c%d(%s) %s xid=%08x layout=%s opt82@%d area=%d state=%s ciaddr=%v req=%v deliver=%v", kind, c, cl.Access, reqShape, m.Xid,
-		layoutNames[m.Layout], cidPos, area, state, net.IP(m.Ciaddr[:]), net.IP(m.ReqIP), deliver)
+	for ev := range x.events {
+		x.cls["probe-after:"+ev] = true
+	}
+	x.logf("%s c%d(%s) %s xid=%08x layout=%s opt82@%d area=%d state=%s cid-state=%s ciaddr=%v req=%v deliver=%v", kind, c, cl.Access, reqShape, m.Xid,
+		layoutNames[m.Layout], cidPos, area, state, cidState, net.IP(m.Ciaddr[:]), net.IP(m.ReqIP), deliver)
 
 	if err := x.syncMaps(); err != nil {
 		x.harness = "copy kernel maps: " + err.Error()
@@ -568,11 +864,16 @@ func (x *run) message(o op) {
 			x.cls["tx-by:"+by] = true
 			x.logf("  - %s -> XDP_TX (%d bytes, assignment found by %s)", desc, len(res.Out), by)
 			stale := false
-			if state != "live" && state != "at-expiry-instant" {
-				// clause 3: userspace holds no (unexpired) lease for this client
+			// clause 3: the identity the program found the assignment by (MAC; VLAN pair = the harness's copy of
+			// the MAC entry; circuit-id) must map to an unexpired lease in userspace
+			st := state
+			if by == "circuit-id" {
+				st = cidState
+			}
+			if st != "live" && st != "at-expiry-instant" {
 				stale = true
-				x.fail("C03/stale/"+state+"/by-"+by, "%s %s from c%d (%s): userspace has no unexpired lease for this client (%s) but the fast path transmits a reply\nframe %x\nreply %x",
-					desc, kind, c, cl.Access, state, fr, res.Out)
+				x.fail("C03/stale/"+st+"/by-"+by, "%s %s from c%d (%s): userspace has no unexpired lease for this client (found by %s: %s) but the fast path transmits a reply\nframe %x\nreply %x",
+					desc, kind, c, cl.Access, by, st, fr, res.Out)
 			}
 			p, what, detail := parseReply(res.Out)
 			if what != "" {
@@ -680,24 +981,91 @@ func (x *run) message(o op) {
 		x.cmp("opt51-lease-time", t.p.opts[51], uopt(51), kind, desc)
 	}
 
+	if perr != nil {
+		return // never reached the server
+	}
 	// model update from what userspace did
-	after := x.lease(c)
-	switch {
-	case after != nil:
-		x.gone[c] = ""
-		x.prevIP[c] = after.IP.To4()
-		if kind == "request" && reply != nil && byte(reply.MessageType()) == dhcpAck {
-			delete(x.offered, c)
+	acked := kind == "request" && reply != nil && byte(reply.MessageType()) == dhcpAck
+	x.afterStep(before, kind, macS, cl.Access, acked)
+	if kind == "discover" && reply != nil && byte(reply.MessageType()) == dhcpOffer && x.table().byMAC(macS) == nil {
+		x.offered[macS] = reply.YourIPAddr.To4()
+	}
+	if kind == "release" && lease == nil && x.offered[macS] != nil {
+		delete(x.offered, macS)
+		x.event("release-offered")
+	}
+}
+
+func (x *run) event(ev string) {
+	x.events[ev] = true
+	x.cls["event:"+ev] = true
+}
+
+// afterStep compares userspace's lease table before and after a slow-path step (kind = discover | request |
+// release | decline | cleanup; mac/access = the sender, "" for the cleanup tick), records why an identity lost
+// its lease, names the identity event that happened, re-syncs the harness-owned VLAN entries and evaluates
+// the map-level invariant.
+func (x *run) afterStep(before leaseTab, kind, mac, access string, acked bool) {
+	after := x.table()
+	reason := map[string]string{"release": "release", "decline": "decline", "cleanup": "expiry-cleanup", "discover": "retire-on-discover", "request": "request"}[kind]
+	ev := kind
+	for i := range before {
+		b := &before[i]
+		bm := b.MAC.String()
+		a := after.byMAC(bm)
+		if a == nil {
+			why := reason
+			if kind == "request" {
+				for j := range after {
+					if after[j].IP.Equal(b.IP) && after[j].MAC.String() != bm {
+						why = "cpe-swap" // the lease was re-homed to the device that sent the REQUEST
+					}
+				}
+			}
+			x.gone[bm] = why
+			x.prevIP[bm] = b.IP.To4()
+			delete(x.offered, bm)
+			delete(x.lastAcc, bm)
+			if kind != "request" || why == "cpe-swap" {
+				ev = why
+			}
+			x.event(why)
+		} else if len(b.CircuitID) > 0 && !bytes.Equal(a.CircuitID, b.CircuitID) {
+			ev = "circuit-move"
+			x.event("circuit-move")
 		}
-	case lease != nil && after == nil:
-		x.gone[c] = kind // release | decline
-		x.prevIP[c] = own
-		delete(x.offered, c)
+		if len(b.CircuitID) > 0 && after.byCid(b.CircuitID) == nil {
+			why := reason
+			if kind == "request" {
+				why = "circuit-move"
+			}
+			x.goneCid[hex.EncodeToString(b.CircuitID)] = why
+		}
 	}
-	if kind == "discover" && reply != nil && byte(reply.MessageType()) == dhcpOffer && after == nil {
-		x.offered[c] = reply.YourIPAddr.To4()
+	for i := range after {
+		a := &after[i]
+		am := a.MAC.String()
+		x.gone[am] = ""
+		x.prevIP[am] = a.IP.To4()
+		if len(a.CircuitID) > 0 {
+			x.goneCid[hex.EncodeToString(a.CircuitID)] = ""
+		}
 	}
+	if acked && after.byMAC(mac) != nil {
+		delete(x.offered, mac)
+		if prev := x.lastAcc[mac]; prev != "" && prev != access && before.byMAC(mac) != nil {
+			x.event("reshape")
+			x.cls["reshape:"+prev+">"+access] = true
+			if ev == "request" {
+				ev = "reshape"
+			}
+		}
+		x.lastAcc[mac] = access
+	}
+	x.dirty = true
+	x.fresh = false
 	x.syncVLAN()
+	x.checkCache(after, ev)
 }
 
 // cmp compares one field of the two replies; every field and every kind of disagreement has its own signature.
@@ -740,21 +1108,10 @@ func (x *run) step(o op) {
 		synctest.Wait()
 		x.logf("advance %s -> %s", d, time.Now().UTC().Format(time.RFC3339))
 	case "cleanup":
-		before := map[int]bool{}
-		for i := range x.tc.Cfg.Clients {
-			before[i] = x.lease(i) != nil
-		}
+		before := x.table()
 		x.srv.VerifCleanupExpired()
-		x.dirty = true
-		for i := range x.tc.Cfg.Clients {
-			if before[i] && x.lease(i) == nil {
-				x.gone[i] = "expiry-cleanup"
-				delete(x.offered, i)
-				x.cls["event:expiry-cleanup"] = true
-			}
-		}
-		x.syncVLAN()
 		x.logf("cleanup tick")
+		x.afterStep(before, "cleanup", "", "", false)
 	default:
 		x.message(o)
 	}
@@ -786,7 +1143,11 @@ func execInBubble(rc *bpfnative.Client, tc *tcase) result {
 	c := tc.Cfg
 	x.logf("pool %s/%d id=%d gateway %s dns %v lease %s server-ip %s (%s)", x.g.network, c.Bits, c.PoolID, x.g.gateway, c.DNS, x.g.lease, x.g.serverIP, c.Server)
 	for i, cl := range c.Clients {
-		x.logf("c%d mac=%s access=%s stag=%d ctag=%d cid=%x", i, net.HardwareAddr(cl.MAC), cl.Access, cl.STag, cl.CTag, []byte(cl.Cid))
+		rel := ""
+		if cl.Rel != "" {
+			rel = fmt.Sprintf(" (%s of c%d)", cl.Rel, cl.Of)
+		}
+		x.logf("c%d mac=%s access=%s stag=%d ctag=%d cid=%x%s", i, net.HardwareAddr(cl.MAC), cl.Access, cl.STag, cl.CTag, []byte(cl.Cid), rel)
 	}
 	for _, o := range tc.Ops {
 		x.step(o)
